@@ -41,6 +41,12 @@ def gen_case(rng, quick):
     names = [k + "_" + rng.choice(["total", "light"]) for k in rng.sample(kinds, rng.randint(1, 2))]
     if rng.random() < 0.3 and proc == "NC":
         names.append("XSHERANC_total")
+    if rng.random() < 0.35:
+        # the same observable requested once more under its other spelling (a flavourless name means _total), with its own list of points
+        k = rng.choice(["F2", "FL"])
+        for nm in (k + "_total", k):
+            if nm not in names:
+                names.append(nm)
     pts = [copy.deepcopy(p) for p in rng.sample(POOL, rng.randint(3, 5))]
     if rng.random() < 0.5:
         pts.append(copy.deepcopy(pts[0]))                      # a duplicate
